@@ -42,6 +42,10 @@ CHECKS = {
          "Every table of 1..2 (quick) / 1..3 (thorough) features over a location menu x 3 keys x equal/distinct qualifiers x every set of 1..3 cut positions on 8 residues is cut, concatenated and repaired on the real API; every pair of (partial) ranges on either strand goes straight into Repair. Oracle per (key, qualifiers) class: the output must be obtainable from the input by legal merges only (abutting same-strand ranges, 3'-partial meeting 5'-partial, any abutting for source), coverage preserved, Repair idempotent, never a panic; table-unique features are restored to their original denotation and markers.",
          "Four class shapes are known-broken (join members, two complement members, point/site members, order/ambiguous fragments) and reported as KNOWN-FINDING; the live guarantee is on contiguous forward ranges and on the safety clauses of everything else.",
          "DESIGN.md §5 C12"),
+ "C13": ("fault_enumeration", "exhaustive fault/crash enumeration: the real cmd/cache code on an in-memory os shim; every corruption offset x mask, truncation, extension, foreign key, every subset of the write log with every tear point, every single and double I/O fault",
+         "The current cmd/cache/file.go is compiled with its os import redirected (build overlay) to an in-memory device that logs writes and injects faults. For bodies empty/1/100/3000 bytes (+70 KB multi-block in thorough): every byte offset x every non-zero xor mask, every truncation length, tails of 1..64 bytes, entries under a foreign key or with foreign header digests; every crash image = every subset of the write log reaching the medium (the code never syncs) x the last surviving write torn at every length; every I/O operation of the create/write/close protocol failing or coming up short, singly and in pairs, with the CLI's removal protocol mirrored. Oracle: Open fails, or reading to EOF yields exactly the bytes written; a writer that reported success left a valid entry.",
+         "Device model: holes read as zero, no reordering constraints because nothing is synced; flate/sha1/header.go are the real code; one case at a time (process-global device).",
+         "DESIGN.md §5 C13"),
  "C16": (MC, "exhaustive enumeration of every sequence length 0..N and every single-byte mutation of short blocks through NewOrigin/Origin/scanner (LF and CRLF) and, by overlay export, the two internal ORIGIN reader paths",
          "Every length 0..1300 (quick) / 0..12000 (thorough) with residues cycling through all printable bytes: the block equals an independently written layout, Len() before and after decoding equals n, decoding restores the residues, re-formatting is stable, the closed-form size arithmetic agrees with the block, and a record carrying the block is read with identical residues through the fast (LF) and slow (CRLF) reader paths. For every length <=70 (quick) / <=130 (thorough) every offset of the block x 9 replacement bytes: both line-end variants agree, and validateOrigin and slowGenBankOriginParser (exported into the checker by a build overlay, nothing committed to /repo) agree in verdict and output.",
          "If the unexported names disappear the overlay build falls back and the internal sub-check is reported as skipped in the evidence; seqio parsing is serialised (pars combinators are not goroutine-safe).",
